@@ -12,7 +12,8 @@ IMPORTS = "From Ford Require Import Base.Str Doc.Meta Doc.Admon Corr.C03doc."
 PROPS_FILE = "theories/Props/C03doc.v"
 BUILD_TARGETS = ["theories/Corr/C03doc.vo", "theories/Props/C03doc.vo"]
 THEOREMS = ["C03_meta_split", "C03_meta_shape", "C03_meta_no_header", "C03_meta_header", "C03_meta_header_fenced",
-            "C03_read_metadata_split", "C03_read_metadata_oneline", "C03_meta_rescan_not_identity",
+            "C03_read_metadata_split", "C03_read_metadata_oneline", "C03_oneline_alt_block_fixed",
+            "C03_meta_rescan_not_identity",
             "C03_admon_words", "C03_admon_total", "C03_admon_split_words", "C03_pretext_fixed",
             "C03_inside_word_fixed",
             "C03_admon_errors", "C03_admon_end_without_start", "C03_admon_end_type_mismatch",
@@ -166,7 +167,9 @@ def meta_inputs(chk):
     rng = chk.rng
     quick = chk.tier == "quick"
     seen = set()
-    for seq in itertools.chain(G.exhaustive(G.META_CORE, 3 if quick else 5),
+    corpus = [["Note: alt one line", ""], [" Note: alt one line", "", "  "], ["author: me", ""], ["Note: x", "", "y"],
+              ["Note: x", "y", ""]]
+    for seq in itertools.chain(corpus, G.exhaustive(G.META_CORE, 3 if quick else 5),
                                G.exhaustive(G.META_ALPHA, 2 if quick else 3),
                                (G.rand_meta_lines(rng) for _ in range(800 if quick else 10000))):
         t = tuple(seq)
@@ -351,6 +354,8 @@ def part_shared(chk):
         kind, recs = I.run_shared_decl(lines, nvars, style, stmt="integer")
         chk.count(("shared", tuple(lines), nvars, style), nontrivial=True,
                   sample={"doc_lines": lines, "nvars": nvars, "style": style, "impl": recs} if len(cases) == 3 else None)
+        if kind == "err" and "Could not convert" in recs:
+            continue            # the generated header is not valid metadata (e.g. two values for a bool): no case
         if kind != "ok" or len(recs) != nvars:
             chk.violation("failing-input", {"what": "a documented declaration of several variables was not parsed into "
                                             "that many documented variables", "part": "meta", "doc_lines": lines,
@@ -424,12 +429,17 @@ def part_regressions(chk):
         chk.violation("failing-input", {"what": "consecutive boxes are nested again (doc-line-after-box-indented "
                                         "returned)", "part": "admon", "lines": lines, "impl": r, "html": html}, True)
     chk.extra["regression_witnesses"] = res
-    # open finding doc-oneline-colon-alt-block: replay its witness
-    kind, out = I.run_doc_project({"src/a.f90": "module m\n  implicit none\n  integer :: x\n    !* Note: alt one line\n\n"
-                                                "  integer :: y\n    !! Note: plain one line\nend module m\n"})
-    still = kind == "ok" and "one line" not in out[("variable", "x", "m")]["text"] \
-        and "one line" in out[("variable", "y", "m")]["text"]
-    chk.known("doc-oneline-colon-alt-block", still)
+    # doc-oneline-colon-alt-block (repaired): a one-line `!*` comment with a colon is shown like the other styles
+    src = ("module m\n  implicit none\n  integer :: x\n    !* Note: alt one line\n\n"
+           "  integer :: y\n    !! Note: plain one line\nend module m\n")
+    kind, out = I.run_doc_project({"src/a.f90": src})
+    chk.count(("regression", "oneline-alt-block"), nontrivial=True)
+    if kind != "ok" or "one line" not in out[("variable", "x", "m")]["text"] \
+            or "one line" not in out[("variable", "y", "m")]["text"]:
+        chk.violation("failing-input", {"what": "a one-line `!*` comment containing a colon is taken for metadata again "
+                                        "(doc-oneline-colon-alt-block returned)", "part": "e2e",
+                                        "entity": ["variable", "x", "m"], "doc_lines": ["tw0a1: tw0a2"],
+                                        "files": {"src/a.f90": src}, "result": str(out)[:400]}, True)
 
 
 # ---------------------------------------------------------------- E. pattern fingerprints
